@@ -26,7 +26,12 @@ ASSUMPTIONS = ["ordinates are dyadic (k/8), thresholds small integers / halves, 
                "int64..int8 / uint8 / uint16 / float32, list arguments as python ints / integer or float32 ndarrays, precisions and "
                "tolerances as python ints / numpy scalars) hold exactly representable values; the expected result is that of the "
                "VALUES (the Lean model / spec have no storage dtype); interpolated fills and integrals of narrow-dtype inputs may "
-               "legitimately be computed in float32 and are compared at 1e-5 relative, everything else at 1e-9 / exactly"]
+               "legitimately be computed in float32 and are compared at 1e-5 relative, everything else at 1e-9 / exactly",
+               "abscissa scale: adjust / add_thresholds / integrate also run with all abscissae (thresholds, observations, new / "
+               "additional thresholds) multiplied by 2^k, k in {-30,-24,-20,-10,10} (exactness preserved); CRPS / integrals of those "
+               "cases are compared RELATIVE to their own size, the returned threshold coordinate of add_thresholds exactly; "
+               "new thresholds of add_thresholds may be float64 decimals (tenths, x+-0.001, thirds) not representable in a "
+               "float32 / integer coordinate: they must appear exactly in the result"]
 MANIFEST = dict(
     level="proof",
     text="Kernel-checked Lean theorems about an executable model of the eight CDF tools and adjust_fcst_for_crps (for lists of "
@@ -58,14 +63,15 @@ MANIFEST = dict(
 RULE = ("random CDF arrays (length 1-6, decreasing runs, plateaus, NaN, 0-2 extra dims in any order) per tool, plus the exhaustive "
         "enumeration of all CDFs of length <= 4 over {0,1/4,1/2,1,NaN} (thorough); per tool the same generator with the operands "
         "stored in float32 / signed integer / bool dtypes (batches *-dtype) and with at least one uint8 / uint16 operand (batches "
-        "*-unsigned), values made exactly representable first; distinct = distinct (tool, arguments, storage); "
+        "*-unsigned), values made exactly representable first; 20-35 % of the adjust / add / integrate cases on an abscissa scale "
+        "2^k (k = -30..10), 25-50 % of the add cases with decimal (non-float32) new thresholds; distinct = distinct (tool, arguments, storage); "
         "non-trivial = at least one non-NaN ordinate and not in the malformed stream")
 
 TOOLS = ["round", "propagate", "observed", "integrate", "fill", "add", "decreasing", "envelope", "adjust"]
 
 
 # ----------------------------------------------------------------------------- generators
-def gen_case(rng, tool, malformed_ok=True):
+def gen_case(rng, tool, malformed_ok=True, variants=True):
     c = {"tool": tool}
     if tool == "round":
         n = rng.randint(1, 6)
@@ -131,6 +137,42 @@ def gen_case(rng, tool, malformed_ok=True):
         c["additional"] = rng.choice([None, None, [], [rng.randint(-4, 16) / 2 for _ in range(rng.randint(1, 3))]])
         c["fill"] = rng.choice(["linear", "linear", "step", "forward", "backward"])
         c["integ"] = rng.choice(["exact", "trapz"])
+    if not variants:
+        return c
+    if tool == "add" and c["new"] and rng.random() < 0.25:
+        decimal_new(rng, c)
+    if tool in SCALED_TOOLS and rng.random() < (0.35 if tool == "adjust" else 0.2):
+        apply_scale(c, rng.choice(SCALES))
+    return c
+
+
+# Numeric scale of the abscissae.  The property is invariant under a change of units of the threshold axis (thresholds,
+# observations, additional / new thresholds all multiplied by the same factor: ordinates, flags and the chosen candidate stay,
+# integrals / CRPS scale with it).  Factors are powers of two, so every float operation that was exact stays exact and ties
+# stay ties; 2^-24 / 2^-30 put a whole CRPS far below 1e-6 (mixing ratios in kg/kg, rainfall in metres), 2^10 far above 1.
+SCALED_TOOLS = ("adjust", "add", "integrate")
+SCALES = [-24, -24, -30, -20, -10, 10]
+
+
+def apply_scale(c, k):
+    f = 2.0 ** k
+    c["scale"] = k
+    c["thr"] = [t * f for t in c["thr"]]
+    for key in ("obs_vals", "additional", "new"):
+        if c.get(key) is not None:
+            c[key] = [v * f for v in c[key]]
+    return c
+
+
+def decimal_new(rng, c):
+    """new thresholds that are ordinary decimals (tenths / thousandths next to the grid): float64 values that are NOT
+    representable in float32 (nor as halves), handed over as python floats"""
+    lo, hi = int(math.floor(min(c["thr"]))) - 1, int(math.ceil(max(c["thr"]))) + 1
+    for j in range(len(c["new"])):
+        if rng.random() < 0.6:
+            c["new"][j] = rng.choice([rng.randint(10 * lo, 10 * hi) / 10, rng.choice(c["thr"]) + rng.choice([0.1, -0.1, 0.3, 0.001, -0.001]),
+                                      rng.randint(lo, hi) + rng.choice([0.7, 0.15, 1 / 3])])
+    c["decimal_new"] = True
     return c
 
 
@@ -298,7 +340,7 @@ def _to_int_storage(rng, v, dt, fallback):
 def gen_dtype_case(rng, tool, unsigned=False):
     """a well-formed case of `tool` whose operands are stored in integer / float32 dtypes (values adjusted first so that
     they are exactly representable); unsigned=True: at least one operand is uint8 / uint16"""
-    c = gen_case(rng, tool, malformed_ok=False)
+    c = gen_case(rng, tool, malformed_ok=False, variants=False)
     dt = {}
     if tool == "round":
         vd = rng.choice(UNSIGNED) if unsigned else ("bool" if rng.random() < 0.05 else _pick(rng, False))
@@ -375,6 +417,10 @@ def gen_dtype_case(rng, tool, unsigned=False):
                 dt["new"] = nd if nd is not None else _rep_list(rng, c["new"], unsigned)
                 if dt["new"] in ("list", "float32") and c["new"] and rng.random() < 0.3:
                     c["new"][rng.randrange(len(c["new"]))] = cc.NAN
+            if c["new"] and rng.random() < (0.5 if td == "float32" else 0.25):
+                # requested thresholds are float64 decimals (not representable in a float32 / integer coordinate's dtype)
+                dt.pop("new", None)
+                decimal_new(rng, c)
         if tool == "decreasing":
             c["tol"] = rng.choice([0, 0, 0.125, 0.25, 0.5, 1, 1, 2])
             if rng.random() < 0.5:
@@ -410,6 +456,8 @@ def gen_dtype_case(rng, tool, unsigned=False):
                     c["additional"] = [_to_int_storage(rng, x, "uint8" if unsigned else "int64", 0) for x in c["additional"]]
                 dt["add"] = _rep_list(rng, c["additional"], unsigned)
     c["dt"] = {k: v for k, v in dt.items() if v is not None}
+    if tool == "add" and rng.random() < 0.2 and all(c["dt"].get(k) in (None, "float32", "float64", "list") for k in ("t", "new")):
+        apply_scale(c, rng.choice(SCALES))   # (k/2 * 2^-30 is still exact in float32)
     return c
 
 
@@ -537,12 +585,38 @@ def nontrivial(c):
     return any(not math.isnan(v) for v in vals)
 
 
+def scale_tags(ctx, c):
+    if c.get("scale") is not None:
+        ctx.tag("threshold-scale:2^%d" % c["scale"])
+    if c.get("decimal_new"):
+        ctx.tag("new-thresholds-decimal")
+        if dt_of(c, "t") == "float32":
+            ctx.tag("new-thresholds-not-representable-in-float32-coordinate")
+
+
+def rel_close(a, b, rtol):
+    """a: implementation float, b: exact Fraction / NaN; purely relative (the abscissa scale may be 2^-30)"""
+    if isinstance(b, float) and math.isnan(b):
+        return math.isnan(a)
+    if math.isnan(a) or math.isinf(a):
+        return False
+    return abs(Fraction(a) - Fraction(b)) <= Fraction(rtol) * abs(Fraction(b))
+
+
+def same_grid(impl_grid, spec_grid):
+    """threshold coordinates are compared EXACTLY: the requested float64 thresholds themselves must be in the result"""
+    if not isinstance(spec_grid, list) or len(impl_grid) != len(spec_grid):
+        return False
+    return all(core.close(a, b, rtol=0, atol=0) for a, b in zip(impl_grid, spec_grid))
+
+
 def tags_of(ctx, c):
     ctx.tag("tool:" + c["tool"])
     for k, v in sorted((c.get("dt") or {}).items()):
         ctx.tag("dtype:%s=%s" % (k, v))
     if malformed(c):
         ctx.tag("malformed")
+    scale_tags(ctx, c)
     if "rows" in c:
         flat = [v for r in c["rows"] for v in r]
         if any(math.isnan(v) for v in flat):
@@ -653,7 +727,7 @@ def adjust_tie_ok(c, impl, m, ctx):
         if any(core.is_nan(t) for t in tot):
             return False
         mx = max(tot)
-        tied = [k for k in range(3) if abs(float(tot[k] - mx)) <= 1e-9 * max(1.0, abs(float(mx)))]
+        tied = [k for k in range(3) if abs(tot[k] - mx) <= Fraction(1, 10 ** 9) * abs(mx)]
         if not any(same(row, m["cands"][i][k]) for k in tied):
             return False
     ctx.tag("adjust-exact-tie-broken-by-rounding-accepted")
@@ -737,14 +811,14 @@ def check_case(ctx, c, spec, batch):
                 tot += Fraction(pwk) * (thr[k + 1] - thr[k]) * (a * a + a * b + b * b) / 3
                 any_piece = True
             want = tot if any_piece else cc.NAN
-            if not core.close(r, want, rtol=rtol):
+            if not (core.close(r, want, rtol=rtol) and (c.get("scale") is None or rel_close(r, want, rtol))):
                 bad("integral-of-square", r, want, "piece_eq")
     elif tool in ("fill", "add"):
         m = c["method"]
         want_rows = spec[m] if m != "none" else None
         rows = impl["rows"] if tool == "add" else impl
         if tool == "add":
-            if not same(impl["grid"], spec["grid"]):
+            if not same_grid(impl["grid"], spec["grid"]):
                 bad("thresholds-not-the-sorted-union", impl["grid"], spec["grid"])
                 return len(ctx.failures) - n0
             grid = impl["grid"]
@@ -842,7 +916,9 @@ def check_adjust(ctx, c, impl, spec, bad):
             if not eq[0]:
                 bad("nan-crps-case-changed", row, prop[i])
             continue
-        scale = max(1.0, max(abs(t) for t in tot))
+        # relative to the CRPS values themselves: on a fine abscissa scale (2^-24) the three CRPS differ by 1e-8 and the
+        # largest must still be chosen (exact / trapz CRPS of these inputs carries a relative rounding error of ~1e-15)
+        scale = max(abs(t) for t in tot)
         if s_adj[i] < tot[0] - 1e-9 * scale:
             bad("adjusted-crps-smaller-than-original", s_adj[i], tot[0], "adjust_never_flatters")
         if s_adj[i] < max(tot) - 1e-9 * scale:
@@ -893,6 +969,7 @@ def oracle(ctx, boost):
         ctx.case(batch, c, nontrivial=nontrivial(c))
         for k, v in sorted((c.get("dt") or {}).items()):
             ctx.tag("dtype:%s=%s" % (k, v))
+        scale_tags(ctx, c)
         check_case(ctx, c, smap.get(id(c)), batch)
 
 
